@@ -169,6 +169,9 @@ func buildCases(st map[string]int) []Case {
 		}
 		cases = append(cases, Case{Endpoint: ep.Name, Kind: ep.Kind, Status: s0, Name: n0, Form: "response", Shape: "full", Mode: "status", Producible: true, Slow: true})
 	}
+	for _, proto := range []string{"http", "grpc"} {
+		cases = append(cases, Case{Endpoint: "reqid:" + proto, Kind: "CreateSubscription", Mode: "reqid", Status: 20100, Producible: true})
+	}
 	// request translation: every kind, several generated contents
 	for i := 0; i < 40; i++ {
 		for _, k := range kindsInOrder {
@@ -243,6 +246,12 @@ func main() {
 	start := time.Now()
 	var mine []Case
 	for i, c := range cases {
+		if *prop == "C05" && c.Mode != "reqid" {
+			continue // C05 uses the front ends only for what they do to overlapping registrations
+		}
+		if *prop == "C12" && !c.Slow {
+			continue // C12: a reply later than the configured timeout is still a reply
+		}
 		if *prop == "C03" && !(c.Mode == "translate" && (c.Kind == "CreatePromise" || c.Kind == "CreatePromiseAndTask" || c.Kind == "CompletePromise" || c.Kind == "CreateSchedule")) {
 			continue // C03 uses the front ends only for what they do to idempotency keys and the strict flag
 		}
